@@ -1,0 +1,426 @@
+//go:build verif
+
+// Contracts for govc (contract-based deductive verification); comments only.
+package resource_division
+
+// ---- spec functions --------------------------------------------------------
+//@ define validRes(r rs.ResourceName) bool = r == "CPU" || r == "Memory" || r == "GPU"
+// field f of the ResourceShare record of queue q for resource r (r is one of the three valid names)
+//@ define fair(q *rs.QueueAttributes, r rs.ResourceName) real = ite(r == "CPU", q.CPU.FairShare, ite(r == "Memory", q.Memory.FairShare, q.GPU.FairShare))
+//@ define request(q *rs.QueueAttributes, r rs.ResourceName) real = ite(r == "CPU", q.CPU.Request, ite(r == "Memory", q.Memory.Request, q.GPU.Request))
+//@ define limit(q *rs.QueueAttributes, r rs.ResourceName) real = ite(r == "CPU", q.CPU.MaxAllowed, ite(r == "Memory", q.Memory.MaxAllowed, q.GPU.MaxAllowed))
+//@ define deserved(q *rs.QueueAttributes, r rs.ResourceName) real = ite(r == "CPU", q.CPU.Deserved, ite(r == "Memory", q.Memory.Deserved, q.GPU.Deserved))
+//@ define weight(q *rs.QueueAttributes, r rs.ResourceName) real = ite(r == "CPU", q.CPU.OverQuotaWeight, ite(r == "Memory", q.Memory.OverQuotaWeight, q.GPU.OverQuotaWeight))
+//@ define usage(q *rs.QueueAttributes, r rs.ResourceName) real = ite(r == "CPU", q.CPU.Usage, ite(r == "Memory", q.Memory.Usage, q.GPU.Usage))
+// C09: "its request capped by its limit" (limit -1 = unlimited); same formula as rs.requestable
+//@ define capReq(q *rs.QueueAttributes, r rs.ResourceName) real = ite(limit(q, r) == -1.0, request(q, r), min(limit(q, r), request(q, r)))
+// C09: a queue is "satisfied" when its fair share covers its capped request
+//@ define satisfied(q *rs.QueueAttributes, r rs.ResourceName) bool = capReq(q, r) <= fair(q, r)
+// what a queue may still receive
+//@ define remReq(q *rs.QueueAttributes, r rs.ResourceName) real = max(capReq(q, r) - fair(q, r), 0.0)
+// every entry of the queue map is a usable queue record
+//@ define queuesOK(qs map[common_info.QueueID]*rs.QueueAttributes) bool = forall k in qs :: qs[k] != nil && rs.cacheOK(qs[k])
+
+// ---- leaves ----------------------------------------------------------------
+
+// C09: "satisfied" <=> fair share >= request capped by limit.
+//@ func isQueueSatisfied
+//@   props C09
+//@   requires queue != nil && validRes(resourceName)
+//@   pure
+//@   ensures result == satisfied(queue, resourceName)
+//@ end
+
+//@ func getRemainingRequested
+//@   props C09
+//@   requires queue != nil && validRes(resourceName)
+//@   pure
+//@   ensures result == remReq(queue, resourceName)
+//@   ensures [nonneg] result >= 0.0
+//@   ensures [zeroIffSatisfied] (result == 0.0) == satisfied(queue, resourceName)
+//@ end
+
+// C09 (rounding law of one round): 0 <= give <= max(fairShare,0); a queue whose remaining
+// request fits its round share gets exactly the request and leaves the remainder table;
+// otherwise it gets the floor of the positive part and the remainder (< 1 unit) is recorded.
+//@ func getResourceToGiveInCurrentRound
+//@   props C09
+//@   requires queue != nil && remainingRequested != nil && requested >= 0.0
+//@   modifies remainingRequested[queue.UID]
+//@   ensures [lower] result >= 0.0
+//@   ensures [upper] result <= max(fairShare, 0.0)
+//@   ensures [atMostRequested] result <= requested
+//@   ensures [satisfiedExact] requested <= fairShare ==> result == requested && !(queue.UID in remainingRequested)
+//@   ensures [floorLaw] requested > fairShare ==> result == max(floor(fairShare), 0.0)
+//@   ensures [remainderRecorded] requested > fairShare && fairShare - result > 0.0 ==> queue.UID in remainingRequested && fresh(remainingRequested[queue.UID]) && remainingRequested[queue.UID].queue == queue && remainingRequested[queue.UID].remainingAmount == fairShare - result
+//@   ensures [remainderLtOne] requested > fairShare && fairShare > 0.0 ==> fairShare - result < 1.0
+//@   ensures [noRemainderKeepsEntry] requested > fairShare && fairShare - result <= 0.0 ==> (queue.UID in remainingRequested) == old(queue.UID in remainingRequested) && remainingRequested[queue.UID] == old(remainingRequested[queue.UID])
+//@ end
+
+// ---- weights ---------------------------------------------------------------
+// call-site facts (proportion.createQueueResourceAttrs keys pp.queues by queue.UID; weights come from the Queue CRD, "weight incl. 0")
+//@ define keyedByUID(qs map[common_info.QueueID]*rs.QueueAttributes) bool = forall k in qs :: qs[k] != nil && qs[k].UID == k
+//@ define weightsNonNeg(qs map[common_info.QueueID]*rs.QueueAttributes, r rs.ResourceName) bool = forall k in qs :: weight(qs[k], r) >= 0.0
+
+// total over-quota weight of the unsatisfied queues: stated without the fold (no sum in the
+// spec language): non-negative, dominates every unsatisfied queue's weight, zero iff all such
+// weights are zero.
+//@ func getTotalWeightsForUnsatisfied
+//@   props C09
+//@   requires validRes(resourceName) && queuesOK(queues) && weightsNonNeg(queues, resourceName)
+//@   pure
+//@   loop 1
+//@     invariant totalOverQuotaWeights >= 0.0
+//@     invariant forall k in visited :: k in queues
+//@     invariant forall k in visited :: !satisfied(queues[k], resourceName) ==> weight(queues[k], resourceName) <= totalOverQuotaWeights
+//@     invariant totalOverQuotaWeights > 0.0 ==> exists k in visited :: !satisfied(queues[k], resourceName) && weight(queues[k], resourceName) > 0.0
+//@   ensures [nonneg] result >= 0.0
+//@   ensures [dominates] forall k in queues :: !satisfied(queues[k], resourceName) ==> weight(queues[k], resourceName) <= result
+//@   ensures [positiveHasWitness] result > 0.0 ==> exists k in queues :: !satisfied(queues[k], resourceName) && weight(queues[k], resourceName) > 0.0
+//@ end
+
+// share weight of one queue for total over-quota weight T and time-based-fairness factor kv
+//@ define shareWf(w real, u real, T real, kv real) real = max(0.0, w / T + kv * (w / T - u))
+//@ define shareW(q *rs.QueueAttributes, r rs.ResourceName, T real, kv real) real = shareWf(weight(q, r), usage(q, r), T, kv)
+
+// C09 ("within a priority the surplus is monotone in over-quota weight", "weight incl. 0", "all
+// k-values"): per-round share weights are >= 0, bounded by their sum, exist exactly for the
+// unsatisfied queues, follow the documented formula and are monotone in the over-quota weight.
+//@ func calcShareWeights
+//@   props C09
+//@   requires validRes(resourceName) && queuesOK(queues) && keyedByUID(queues) && weightsNonNeg(queues, resourceName)
+//@   loop 1
+//@     invariant totalWeights > 0.0 && shareWeightsPerQueue != nil && fresh(shareWeightsPerQueue)
+//@     invariant forall k in visited :: k in queues
+//@     invariant shareWeightsSum >= 0.0
+//@     invariant forall k in shareWeightsPerQueue :: k in visited && !satisfied(queues[k], resourceName)
+//@     invariant forall k in visited :: !satisfied(queues[k], resourceName) ==> k in shareWeightsPerQueue
+//@     invariant resourceName == "CPU" ==> forall k in shareWeightsPerQueue :: shareWeightsPerQueue[k] == shareWf(queues[k].CPU.OverQuotaWeight, queues[k].CPU.Usage, totalWeights, kValue)
+//@     invariant resourceName == "Memory" ==> forall k in shareWeightsPerQueue :: shareWeightsPerQueue[k] == shareWf(queues[k].Memory.OverQuotaWeight, queues[k].Memory.Usage, totalWeights, kValue)
+//@     invariant resourceName == "GPU" ==> forall k in shareWeightsPerQueue :: shareWeightsPerQueue[k] == shareWf(queues[k].GPU.OverQuotaWeight, queues[k].GPU.Usage, totalWeights, kValue)
+//@     invariant forall k in shareWeightsPerQueue :: shareWeightsPerQueue[k] <= shareWeightsSum
+//@   ensures [freshMap] result0 != nil && fresh(result0)
+//@   ensures [sumNonNeg] result1 >= 0.0
+//@   ensures [weightsNonNeg] forall k in result0 :: result0[k] >= 0.0
+//@   ensures [weightsLeSum] forall k in result0 :: result0[k] <= result1
+//@   ensures [keysUnsatisfied] forall k in result0 :: k in queues && !satisfied(queues[k], resourceName)
+//@   ensures [unsatisfiedHaveKey] result1 != 0.0 ==> forall k in queues :: !satisfied(queues[k], resourceName) ==> k in result0
+//@   ensures [formula] result1 != 0.0 ==> exists T real :: T > 0.0 && (forall k in queues :: !satisfied(queues[k], resourceName) ==> weight(queues[k], resourceName) <= T) && (forall k in result0 :: result0[k] == shareW(queues[k], resourceName, T, kValue))
+//@   ensures [weightMonotoneCPU] resourceName == "CPU" && kValue >= 0.0 ==> forall a in result0 :: forall b in result0 :: queues[a].CPU.OverQuotaWeight <= queues[b].CPU.OverQuotaWeight && queues[a].CPU.Usage >= queues[b].CPU.Usage ==> result0[a] <= result0[b]
+//@   ensures [weightMonotoneMemory] resourceName == "Memory" && kValue >= 0.0 ==> forall a in result0 :: forall b in result0 :: queues[a].Memory.OverQuotaWeight <= queues[b].Memory.OverQuotaWeight && queues[a].Memory.Usage >= queues[b].Memory.Usage ==> result0[a] <= result0[b]
+//@   ensures [weightMonotoneGPU] resourceName == "GPU" && kValue >= 0.0 ==> forall a in result0 :: forall b in result0 :: queues[a].GPU.OverQuotaWeight <= queues[b].GPU.OverQuotaWeight && queues[a].GPU.Usage >= queues[b].GPU.Usage ==> result0[a] <= result0[b]
+//@ end
+
+// ---- phase 1: deserved quota ------------------------------------------------
+// deserved quota of q ("quota incl. unlimited": -1 means the whole amount being divided)
+//@ define deservedCap(q *rs.QueueAttributes, r rs.ResourceName, total real) real = ite(deserved(q, r) == -1.0, total, deserved(q, r))
+// C09: "min(deserved quota, its request capped by its limit)"
+//@ define deservedPart(q *rs.QueueAttributes, r rs.ResourceName, total real) real = min(deservedCap(q, r, total), capReq(q, r))
+// the shares of the resources other than r are as in the pre-state
+//@ define otherResKept(q *rs.QueueAttributes, r rs.ResourceName) bool = (r != "CPU" ==> q.CPU.FairShare == old(q.CPU.FairShare)) && (r != "Memory" ==> q.Memory.FairShare == old(q.Memory.FairShare)) && (r != "GPU" ==> q.GPU.FairShare == old(q.GPU.FairShare))
+//@ define member(qs map[common_info.QueueID]*rs.QueueAttributes, q *rs.QueueAttributes) bool = q.UID in qs && qs[q.UID] == q
+
+// queues that are not among the siblings keep their shares (and their fair-share cache)
+//@ define othersKept(qs map[common_info.QueueID]*rs.QueueAttributes) bool = forall q *rs.QueueAttributes :: q != nil && !member(qs, q) ==> q.CPU.FairShare == old(q.CPU.FairShare) && q.Memory.FairShare == old(q.Memory.FairShare) && q.GPU.FairShare == old(q.GPU.FairShare) && q.lastFairShare == old(q.lastFairShare)
+
+// C09: "each queue's fair share is at least min(deserved quota, its request capped by its limit)":
+// phase 1 adds exactly that amount to every sibling (functional, hence independent of the map
+// iteration order), touches no other queue and no other resource.
+//@ func setDeservedResource
+//@   props C09
+//@   requires validRes(resource) && queuesOK(queues) && keyedByUID(queues)
+//@   modifies family(queues[""].CPU.FairShare), family(queues[""].lastFairShare)
+//@   loop 1
+//@     invariant forall k in visited :: k in queues
+//@     invariant queuesOK(queues)
+//@     invariant forall k in queues :: fair(queues[k], resource) == old(fair(queues[k], resource)) + ite(k in visited, deservedPart(queues[k], resource, totalResourceAmount), 0.0)
+//@     invariant forall k in queues :: otherResKept(queues[k], resource)
+//@     invariant othersKept(queues)
+//@     invariant (forall k in queues :: deservedPart(queues[k], resource, totalResourceAmount) >= 0.0) ==> remainingAmount <= totalResourceAmount && forall k in visited :: remainingAmount <= totalResourceAmount - deservedPart(queues[k], resource, totalResourceAmount)
+//@   ensures [deservedAdded] forall k in queues :: fair(queues[k], resource) == old(fair(queues[k], resource)) + deservedPart(queues[k], resource, totalResourceAmount)
+//@   ensures [otherResourcesKept] forall k in queues :: otherResKept(queues[k], resource)
+//@   ensures [otherQueuesKept] othersKept(queues)
+//@   ensures [cache] queuesOK(queues)
+//@   ensures [remainingBounded] (forall k in queues :: deservedPart(queues[k], resource, totalResourceAmount) >= 0.0) ==> remainingAmount <= totalResourceAmount && forall k in queues :: remainingAmount <= totalResourceAmount - deservedPart(queues[k], resource, totalResourceAmount)
+//@ end
+
+// ---- phase 2: priorities ----------------------------------------------------
+// C09: "While a higher over-quota priority is unsatisfied, lower priorities receive at most ...":
+// the comparator handed to slices.SortFunc orders priorities descending (negative <=> i before j <=> i > j).
+//@ func getQueuesByPriority$1
+//@   props C09
+//@   pure
+//@   ensures result == j - i
+//@   ensures [higherFirst] (result < 0) == (i > j)
+//@   ensures [equalOnlyIfSame] (result == 0) == (i == j)
+//@ end
+
+// Assumed contracts of the two generic library functions used by getQueuesByPriority (bodies are not
+// part of the verified program).
+//@ func golang.org/x/exp/maps.Keys
+//@   trusted
+//@   note library (golang.org/x/exp/maps): "Keys returns the keys of the map m. The keys will be in an indeterminate order." New slice, one element per key, nothing else written.
+//@   fresh
+//@   ensures [oneElementPerKey] len(result) == len(arg0)
+//@   ensures [elementsAreKeys] forall i in result :: result[i] in arg0
+//@   ensures [everyKeyListed] forall k in arg0 :: exists i in result :: result[i] == k
+//@   ensures [noDuplicates] forall i in result :: forall j in result :: i != j ==> result[i] != result[j]
+//@ end
+
+// sortCmp stands for "the cmp argument of slices.SortFunc" (function values cannot be called in specs): the only
+// SortFunc call of this package passes getQueuesByPriority$1, whose proved contract is result == j - i.
+//@ define sortCmp(a int, b int) int = b - a
+//@ func slices.SortFunc
+//@   trusted
+//@   note library (slices): "SortFunc sorts the slice x in ascending order as determined by the cmp function" (cmp(a,b) < 0 when a must come before b; requires a strict weak ordering, proved for getQueuesByPriority$1). In-place permutation of the elements.
+//@   modifies arg0[*]
+//@   ensures [sameLength] len(arg0) == old(len(arg0))
+//@   ensures [onlyOldElements] forall i in arg0 :: exists j in arg0 :: arg0[i] == old(arg0[j])
+//@   ensures [allOldElements] forall j in arg0 :: exists i in arg0 :: arg0[i] == old(arg0[j])
+//@   ensures [noNewDuplicates] forall i in arg0 :: forall j in arg0 :: i != j && arg0[i] == arg0[j] ==> exists i2 in arg0 :: exists j2 in arg0 :: i2 != j2 && old(arg0[i2]) == old(arg0[j2])
+//@   ensures [sorted] forall i in arg0 :: forall j in arg0 :: i < j ==> sortCmp(arg0[j], arg0[i]) >= 0
+//@ end
+
+// grouping of the siblings by priority is a partition of the input map (functional => independent of
+// the map iteration order); the priority list is the key set of the partition, sorted descending.
+//@ func getQueuesByPriority
+//@   props C09
+//@   requires forall k in queues :: queues[k] != nil
+//@   loop 1
+//@     invariant queuesByPriority != nil && fresh(queuesByPriority)
+//@     invariant forall m map[common_info.QueueID]*rs.QueueAttributes :: forall k common_info.QueueID :: m != nil && !fresh(m) ==> (k in m) == old(k in m) && m[k] == old(m[k])
+//@     invariant forall k in visited :: k in queues
+//@     invariant forall p in queuesByPriority :: queuesByPriority[p] != nil && fresh(queuesByPriority[p]) && allocated(queuesByPriority[p])
+//@     invariant forall p in queuesByPriority :: forall p2 in queuesByPriority :: p != p2 ==> queuesByPriority[p] != queuesByPriority[p2]
+//@     invariant forall k in visited :: queues[k].Priority in queuesByPriority && k in queuesByPriority[queues[k].Priority] && queuesByPriority[queues[k].Priority][k] == queues[k]
+//@     invariant forall p in queuesByPriority :: forall k in queuesByPriority[p] :: k in visited && queues[k].Priority == p
+//@     invariant forall p in queuesByPriority :: exists k in queuesByPriority[p] :: true
+//@   ensures [groupsFresh] result0 != nil && fresh(result0) && forall p in result0 :: result0[p] != nil && fresh(result0[p])
+//@   ensures [groupsDistinct] forall p in result0 :: forall p2 in result0 :: p != p2 ==> result0[p] != result0[p2]
+//@   ensures [everyQueueInItsGroup] forall k in queues :: queues[k].Priority in result0 && k in result0[queues[k].Priority] && result0[queues[k].Priority][k] == queues[k]
+//@   ensures [groupsOnlyOwnPriority] forall p in result0 :: forall k in result0[p] :: k in queues && queues[k].Priority == p
+//@   ensures [noEmptyGroup] forall p in result0 :: exists k in result0[p] :: true
+//@   ensures [prioritiesAreGroupKeys] forall i in result1 :: result1[i] in result0
+//@   ensures [everyGroupListed] forall p in result0 :: exists i in result1 :: result1[i] == p
+//@   ensures [strictlyDescending] forall i in result1 :: forall j in result1 :: i < j ==> result1[i] > result1[j]
+//@ end
+
+// ---- phase 3: remainder hand-out order ---------------------------------------
+// documented order of the remainder phase: larger rounding remainder first, then older queue, then UID
+//@ define rrBefore(l *remainingRequestedResource, r *remainingRequestedResource) bool = l.remainingAmount > r.remainingAmount || (l.remainingAmount == r.remainingAmount && (l.queue.CreationTimestamp < r.queue.CreationTimestamp || (l.queue.CreationTimestamp == r.queue.CreationTimestamp && l.queue.UID < r.queue.UID)))
+//@ define rrSameKey(l *remainingRequestedResource, r *remainingRequestedResource) bool = l.remainingAmount == r.remainingAmount && l.queue.CreationTimestamp == r.queue.CreationTimestamp && l.queue.UID == r.queue.UID
+
+// C09 ("the result is independent of the order in which queues are enumerated"): the pop order of
+// the remainder phase is a strict total order on (remainder, creation time, UID), i.e. a strict weak
+// order whose only ties are entries with identical keys.
+//@ func remainingRequestedOrderFn$1
+//@   props C09
+//@   requires typeis(lH, "*remainingRequestedResource") && typeis(rH, "*remainingRequestedResource")
+//@   requires unbox(lH, "*remainingRequestedResource") != nil && unbox(rH, "*remainingRequestedResource") != nil
+//@   requires unbox(lH, "*remainingRequestedResource").queue != nil && unbox(rH, "*remainingRequestedResource").queue != nil
+//@   pure
+//@   ensures result == rrBefore(unbox(lH, "*remainingRequestedResource"), unbox(rH, "*remainingRequestedResource"))
+//@   lemma [irreflexiveAsymmetric] result ==> !rrBefore(unbox(rH, "*remainingRequestedResource"), unbox(lH, "*remainingRequestedResource"))
+//@   lemma [totalUpToKey] !result && !rrBefore(unbox(rH, "*remainingRequestedResource"), unbox(lH, "*remainingRequestedResource")) ==> rrSameKey(unbox(lH, "*remainingRequestedResource"), unbox(rH, "*remainingRequestedResource"))
+//@   lemma [transitive] forall m *remainingRequestedResource :: m != nil && m.queue != nil && result && rrBefore(unbox(rH, "*remainingRequestedResource"), m) ==> rrBefore(unbox(lH, "*remainingRequestedResource"), m)
+//@ end
+
+//@ func remainingRequestedOrderFn
+//@   props C09
+//@   inline
+//@ end
+
+// ---- phase 2: weighted rounds -------------------------------------------------
+// the remainder table handed to the remainder phase: one fresh record per still-unsatisfied queue,
+// keyed by the queue's UID, holding a rounding remainder strictly between 0 and 1
+//@ define rrOK(rr map[common_info.QueueID]*remainingRequestedResource, qs map[common_info.QueueID]*rs.QueueAttributes, r rs.ResourceName) bool = forall k in rr :: k in qs && rr[k] != nil && fresh(rr[k]) && rr[k].queue == qs[k] && rr[k].remainingAmount > 0.0 && rr[k].remainingAmount < 1.0 && !satisfied(qs[k], r)
+// no remainder table that existed before the call is touched
+//@ define oldTablesKept() bool = forall m map[common_info.QueueID]*remainingRequestedResource :: forall k common_info.QueueID :: m != nil && !fresh(m) ==> (k in m) == old(k in m) && m[k] == old(m[k])
+//@ define rrDistinct(rr map[common_info.QueueID]*remainingRequestedResource) bool = forall j in rr :: forall k in rr :: j != k ==> rr[j] != rr[k]
+
+// C09, weighted rounds of one priority level. Proved per queue (hence for every map iteration order):
+// shares only grow, never beyond the capped request ("exceeds its capped request by less than one
+// rounding unit": by nothing at all in this phase), nothing is taken back (remaining <= total), other
+// resources / other queues are untouched, and every rounding remainder recorded for the remainder
+// phase belongs to a still unsatisfied queue of this level and is < 1 unit.
+// NOT proved here (needs a sum over the visited queues, which the spec language cannot express):
+// remaining >= 0 ("the surplus handed out never exceeds what is left").
+//@ func divideUpToFairShare
+//@   props C09
+//@   requires validRes(resourceName) && queuesOK(queues) && keyedByUID(queues) && weightsNonNeg(queues, resourceName)
+//@   modifies family(queues[""].CPU.FairShare), family(queues[""].lastFairShare)
+//@   loop 1
+//@     invariant remainingRequested != nil && fresh(remainingRequested)
+//@     invariant queuesOK(queues)
+//@     invariant cur(totalResourceAmount) <= totalResourceAmount
+//@     invariant forall k in queues :: fair(queues[k], resourceName) >= old(fair(queues[k], resourceName)) && fair(queues[k], resourceName) <= max(old(fair(queues[k], resourceName)), capReq(queues[k], resourceName))
+//@     invariant forall k in queues :: otherResKept(queues[k], resourceName)
+//@     invariant othersKept(queues)
+//@     invariant rrOK(remainingRequested, queues, resourceName)
+//@     invariant rrDistinct(remainingRequested)
+//@     invariant oldTablesKept()
+//@   loop 2
+//@     invariant remainingRequested != nil && fresh(remainingRequested)
+//@     invariant forall k in visited :: k in queues
+//@     invariant queuesOK(queues)
+//@     invariant cur(totalResourceAmount) <= totalResourceAmount
+//@     invariant forall k in queues :: fair(queues[k], resourceName) >= old(fair(queues[k], resourceName)) && fair(queues[k], resourceName) <= max(old(fair(queues[k], resourceName)), capReq(queues[k], resourceName))
+//@     invariant forall k in queues :: otherResKept(queues[k], resourceName)
+//@     invariant othersKept(queues)
+//@     invariant rrOK(remainingRequested, queues, resourceName)
+//@     invariant rrDistinct(remainingRequested)
+//@     invariant oldTablesKept()
+//@   ensures [remainderTableFresh] remainingRequested != nil && fresh(remainingRequested)
+//@   ensures [nothingTakenBack] remainingAmount <= totalResourceAmount
+//@   ensures [sharesOnlyGrow] forall k in queues :: fair(queues[k], resourceName) >= old(fair(queues[k], resourceName))
+//@   ensures [neverBeyondCappedRequest] forall k in queues :: fair(queues[k], resourceName) <= max(old(fair(queues[k], resourceName)), capReq(queues[k], resourceName))
+//@   ensures [otherResourcesKept] forall k in queues :: otherResKept(queues[k], resourceName)
+//@   ensures [otherQueuesKept] othersKept(queues)
+//@   ensures [remaindersWellFormed] rrOK(remainingRequested, queues, resourceName)
+//@   ensures [remaindersDistinct] rrDistinct(remainingRequested)
+//@   ensures [cache] queuesOK(queues)
+//@ end
+
+// ---- phase 3: remainder hand-out ----------------------------------------------
+//@ import su "github.com/NVIDIA/KAI-scheduler/pkg/scheduler/scheduler_util"
+// usable remainder table (as built by divideUpToFairShare): every record is stored under the UID of its
+// queue (so different records belong to different queues), fair-share caches coherent
+//@ define rrKeyed(rr map[common_info.QueueID]*remainingRequestedResource) bool = forall k in rr :: rr[k] != nil && rr[k].queue != nil && rr[k].queue.UID == k && rs.cacheOK(rr[k].queue)
+// e is a record of the table / q is a queue with a record in the table
+//@ define fromTable(rr map[common_info.QueueID]*remainingRequestedResource, e *remainingRequestedResource) bool = e != nil && e.queue != nil && e.queue.UID in rr && rr[e.queue.UID] == e
+//@ define inTable(rr map[common_info.QueueID]*remainingRequestedResource, q *rs.QueueAttributes) bool = q != nil && q.UID in rr && rr[q.UID].queue == q
+// every element of the priority queue is (a boxed pointer to) a record of the table, each at most once
+//@ define pqFromTable(pq *su.PriorityQueue, rr map[common_info.QueueID]*remainingRequestedResource) bool = forall i int :: 0 <= i && i < len(pq.queue.items) ==> typeis(pq.queue.items[i], "*remainingRequestedResource") && fromTable(rr, unbox(pq.queue.items[i], "*remainingRequestedResource"))
+//@ define pqNoDup(pq *su.PriorityQueue) bool = forall i1 int, i2 int :: 0 <= i1 && i1 < i2 && i2 < len(pq.queue.items) ==> unbox(pq.queue.items[i1], "*remainingRequestedResource") != unbox(pq.queue.items[i2], "*remainingRequestedResource")
+// priority queues and interface cells that existed before the call are untouched
+//@ define oldQueuesKept() bool = (forall p *su.priorityQueue :: p != nil && !fresh(p) ==> p.items == old(p.items)) && (forall c *interface{} :: old(allocated(c)) ==> *c == old(*c))
+// the share of q for resource r is as in the pre-state
+//@ define ungained(q *rs.QueueAttributes, r rs.ResourceName) bool = fair(q, r) == old(fair(q, r))
+
+// the priority queue of the remainder phase holds every record of the table exactly once (functional:
+// independent of the map iteration order up to the heap's internal layout)
+//@ func sortByOverQuotaWeight
+//@   props C09
+//@   requires rrKeyed(remainingRequested)
+//@   fresh
+//@   loop 1
+//@     invariant sortedGroupQueues != nil && fresh(sortedGroupQueues) && sortedGroupQueues.maxQueueSize == 0 - 1 && fresh(sortedGroupQueues.queue.items)
+//@     invariant oldQueuesKept()
+//@     invariant forall k in visited :: k in remainingRequested
+//@     invariant pqFromTable(sortedGroupQueues, remainingRequested)
+//@     invariant forall i int :: 0 <= i && i < len(sortedGroupQueues.queue.items) ==> unbox(sortedGroupQueues.queue.items[i], "*remainingRequestedResource").queue.UID in visited
+//@     invariant pqNoDup(sortedGroupQueues)
+//@   ensures [unbounded] result != nil && result.maxQueueSize == 0 - 1 && fresh(result.queue.items)
+//@   ensures [onlyTableRecords] pqFromTable(result, remainingRequested)
+//@   ensures [noDuplicates] pqNoDup(result)
+//@ end
+
+// C09, remainder phase of one priority level ("the surplus handed out never exceeds what is left",
+// "exceeds its capped request by less than one rounding unit"): hands out min(1, what is left) per
+// popped record (each hand-out is at most one unit), so 0 <= remaining <= total; shares only grow;
+// only queues with a recorded rounding remainder receive anything; other resources are untouched.
+// NOT proved: "every queue receives at most ONE unit" (invariants `pqNoDup(sortedQueues)` + `every record
+// still in the heap is ungained` + `gain <= 1`; the preservation queries through the trusted Pop contract
+// ([removedOnce], [noNewDuplicates]) are not decided by any solver within 120 s), see report.
+//@ func divideRemainingResource
+//@   props C09
+//@   requires validRes(resourceName) && totalResourceAmount >= 0.0 && rrKeyed(remainingRequested)
+//@   modifies family(remainingRequested[""].queue.CPU.FairShare), family(remainingRequested[""].queue.lastFairShare)
+//@   loop 1
+//@     invariant sortedQueues != nil && fresh(sortedQueues) && fresh(sortedQueues.queue.items)
+//@     invariant oldQueuesKept()
+//@     invariant forall i int :: 0 <= i && i < len(sortedQueues.queue.items) ==> typeis(sortedQueues.queue.items[i], "*remainingRequestedResource") && unbox(sortedQueues.queue.items[i], "*remainingRequestedResource") != nil && unbox(sortedQueues.queue.items[i], "*remainingRequestedResource").queue != nil
+//@     invariant forall i int :: 0 <= i && i < len(sortedQueues.queue.items) ==> inTable(remainingRequested, unbox(sortedQueues.queue.items[i], "*remainingRequestedResource").queue)
+//@     invariant cur(totalResourceAmount) >= 0.0 && cur(totalResourceAmount) <= totalResourceAmount
+//@     invariant rrKeyed(remainingRequested)
+//@     invariant forall q *rs.QueueAttributes :: q != nil ==> fair(q, resourceName) >= old(fair(q, resourceName)) && otherResKept(q, resourceName)
+//@     invariant forall q *rs.QueueAttributes :: q != nil && !inTable(remainingRequested, q) ==> ungained(q, resourceName) && q.lastFairShare == old(q.lastFairShare)
+//@   ensures [neverNegative] remainingAmount >= 0.0
+//@   ensures [nothingTakenBack] remainingAmount <= totalResourceAmount
+//@   ensures [sharesOnlyGrow] forall q *rs.QueueAttributes :: q != nil ==> fair(q, resourceName) >= old(fair(q, resourceName))
+//@   ensures [otherResourcesKept] forall q *rs.QueueAttributes :: q != nil ==> otherResKept(q, resourceName)
+//@   ensures [onlyTableQueues] forall q *rs.QueueAttributes :: q != nil && !inTable(remainingRequested, q) ==> ungained(q, resourceName) && q.lastFairShare == old(q.lastFairShare)
+//@   ensures [cache] rrKeyed(remainingRequested)
+//@ end
+
+// ---- phase 2+3 over all priority levels -----------------------------------------
+// per-queue effect of the over-quota phases relative to the state at entry: shares only grow,
+// other resources are untouched
+//@ define grown(q *rs.QueueAttributes, r rs.ResourceName) bool = fair(q, r) >= old(fair(q, r)) && otherResKept(q, r)
+// remainder tables per priority: every table is a fresh map, every record is fresh and points to one of the siblings
+//@ define rrAllOK(all map[int]map[common_info.QueueID]*remainingRequestedResource, qs map[common_info.QueueID]*rs.QueueAttributes) bool = forall p in all :: all[p] != nil && fresh(all[p]) && (forall k in all[p] :: k in qs && all[p][k] != nil && fresh(all[p][k]) && all[p][k].queue == qs[k])
+
+// C09, over-quota phases of one resource over all priority levels (levels in the strictly descending
+// order delivered by getQueuesByPriority; each level first gets its weighted rounds, then, while something
+// is left, the levels get their remainder hand-out in the same order). Proved per queue: shares only grow,
+// nothing is taken back, other resources / other queues untouched; both loops terminate.
+// NOT proved: "while a higher priority is unsatisfied, lower priorities receive at most its rounding
+// remainder" and remaining >= 0 (both need the sum of the shares handed out in divideUpToFairShare).
+//@ func divideOverQuotaResource
+//@   props C09
+//@   requires validRes(resourceName) && queuesOK(queues) && keyedByUID(queues) && weightsNonNeg(queues, resourceName)
+//@   modifies family(queues[""].CPU.FairShare), family(queues[""].lastFairShare)
+//@   loop 1
+//@     invariant 0 - 1 <= rangeindex && rangeindex < len(priorities)
+//@     invariant remainingRequested != nil && fresh(remainingRequested)
+//@     invariant queuesOK(queues)
+//@     invariant remainingAmount <= totalResourceAmount
+//@     invariant forall k in queues :: grown(queues[k], resourceName)
+//@     invariant othersKept(queues)
+//@     invariant rrAllOK(remainingRequested, queues)
+//@     invariant oldTablesKept()
+//@     decreases len(priorities) - rangeindex
+//@   loop 2
+//@     invariant 0 - 1 <= rangeindex && rangeindex < len(priorities)
+//@     invariant remainingRequested != nil && fresh(remainingRequested)
+//@     invariant queuesOK(queues)
+//@     invariant remainingAmount <= totalResourceAmount
+//@     invariant forall k in queues :: grown(queues[k], resourceName)
+//@     invariant othersKept(queues)
+//@     invariant rrAllOK(remainingRequested, queues)
+//@     invariant oldTablesKept()
+//@     decreases len(priorities) - rangeindex
+//@   ensures [nothingTakenBack] remainingAmount <= totalResourceAmount
+//@   ensures [sharesOnlyGrow] forall k in queues :: fair(queues[k], resourceName) >= old(fair(queues[k], resourceName))
+//@   ensures [otherResourcesKept] forall k in queues :: otherResKept(queues[k], resourceName)
+//@   ensures [otherQueuesKept] othersKept(queues)
+//@   ensures [cache] queuesOK(queues)
+//@ end
+
+// ---- one resource, all resources -----------------------------------------------
+// C09 (top level, one resource): "each queue's fair share is at least min(deserved quota, its request
+// capped by its limit)": after the division of `totalAmount` every sibling's share has grown by at
+// least that amount (quota -1 = unlimited = the whole amount); other resources and other queues are
+// untouched. Functional per queue, hence independent of the enumeration order of the siblings.
+//@ func setResourceShare
+//@   props C09
+//@   requires validRes(resourceName) && queuesOK(queues) && keyedByUID(queues) && weightsNonNeg(queues, resourceName)
+//@   modifies family(queues[""].CPU.FairShare), family(queues[""].lastFairShare)
+//@   ensures [deservedFloor] forall k in queues :: fair(queues[k], resourceName) >= old(fair(queues[k], resourceName)) + deservedPart(queues[k], resourceName, totalAmount)
+//@   ensures [otherResourcesKept] forall k in queues :: otherResKept(queues[k], resourceName)
+//@   ensures [otherQueuesKept] othersKept(queues)
+//@   ensures [cache] queuesOK(queues)
+//@ end
+
+// logging and metrics only
+//@ func reportDivisionResult
+//@   props C09
+//@   requires forall k in queues :: queues[k] != nil
+//@   pure
+//@   loop 1
+//@     invariant true
+//@ end
+
+// C09 (top level): the floor law for all three resources of one sibling set.
+//@ func SetResourcesShare
+//@   props C09
+//@   requires queuesOK(queues) && keyedByUID(queues)
+//@   requires weightsNonNeg(queues, "CPU") && weightsNonNeg(queues, "Memory") && weightsNonNeg(queues, "GPU")
+//@   modifies family(queues[""].CPU.FairShare), family(queues[""].lastFairShare)
+//@   loop 1 unroll 3
+//@   ensures [deservedFloorCPU] forall k in queues :: queues[k].CPU.FairShare >= old(queues[k].CPU.FairShare) + deservedPart(queues[k], "CPU", totalResource["CPU"])
+//@   ensures [deservedFloorMemory] forall k in queues :: queues[k].Memory.FairShare >= old(queues[k].Memory.FairShare) + deservedPart(queues[k], "Memory", totalResource["Memory"])
+//@   ensures [deservedFloorGPU] forall k in queues :: queues[k].GPU.FairShare >= old(queues[k].GPU.FairShare) + deservedPart(queues[k], "GPU", totalResource["GPU"])
+//@   ensures [otherQueuesKept] othersKept(queues)
+//@   ensures [cache] queuesOK(queues)
+//@ end
